@@ -22,84 +22,102 @@ def check_one(desc, acc):
     E = [(tuple(sorted(s)), tuple(sorted(t))) for s, t in desc["edges"]]
     base = dict(desc=C.show(desc))
     size = len(E)
+    N0 = list(desc["nodes"])
+    E0 = list(E)
     for detour in (False, True, 2):
         h = C.build(desc, detour=detour)
         w = dict(base, detour=detour)
+        # stage None: the object as built; then (direct build only) a hyperedge towards a new node is added to the SAME object and
+        # removed again: every measure has been computed on it before, nothing may be remembered across the change
+        stages = [None] + (["add", "remove"] if detour is False and N0 else [])
+        xn = 10 ** 6 + 1
+        for stage in stages:
+            N, E = list(N0), list(E0)
+            tag = "" if stage is None else "second-call/"
 
-        def bad(what, msg):
-            acc.violations.append(Violation(what, "%s (detour=%s) on %s" % (msg, detour, C.show(desc)), w, size))
+            def bad(what, msg):
+                acc.violations.append(Violation(tag + what, "%s (detour=%s, stage=%s) on %s" % (msg, detour, stage, C.show(desc)), w, size))
 
-        # degrees
-        for f in FILTERS:
-            acc.evaluations += 1
-            d = dict(f)
-            k = None if not d else (d["size"] if "size" in d else d["order"] + 1)
-            FE = [e for e in E if k is None or len(e[0]) + len(e[1]) == k]
-            win = {n: sum(1 for e in FE if n in e[0]) for n in N}
-            wout = {n: sum(1 for e in FE if n in e[1]) for n in N}
-            gi = q(lambda: in_degree_sequence(h, **d))
-            go = q(lambda: out_degree_sequence(h, **d))
-            if gi != win:
-                bad("in_degree_sequence", "filter %r: %r, definition %r" % (d, gi, win))
-            if go != wout:
-                bad("out_degree_sequence", "filter %r: %r, definition %r" % (d, go, wout))
-            for n in N:
-                if q(lambda: in_degree(h, n, **d)) != win[n] or q(lambda: out_degree(h, n, **d)) != wout[n]:
-                    bad("in_out_degree", "filter %r node %r: in %r out %r, definition %r %r" % (d, n, q(lambda: in_degree(h, n, **d)), q(lambda: out_degree(h, n, **d)), win[n], wout[n]))
-                    break
-        maxsize = max((len(s) + len(t) for s, t in E), default=2)
-        for bound in [None] + list(range(2, 7)):
-            acc.evaluations += 1
-            b = bound if bound is not None else maxsize
-            BE = [e for e in E if len(e[0]) + len(e[1]) <= b]
-            # signature
-            if E or bound is not None:
-                want = np.zeros((b - 1, b - 1))
-                for s, t in BE:
-                    want[len(s) - 1, len(t) - 1] += 1
-                got = q(lambda: hyperedge_signature_vector(h, max_hyperedge_size=bound) if bound is not None else hyperedge_signature_vector(h))
-                try:
-                    ok = got.shape == ((b - 1) ** 2,) and (got == want.flatten()).all() and got.sum() == len(BE)
-                except Exception:
-                    ok = False
-                if not ok:
-                    bad("hyperedge_signature_vector", "bound %r: %r, definition %r" % (bound, got, want.flatten()))
-            if bound is None:
-                continue
-            # reciprocities by definition over the size-bounded hyperedge set
-            S = set(BE)
-            reach = set()
-            for s, t in BE:
-                for i in s:
-                    for j in t:
-                        reach.add((i, j))  # i -> j through some bounded hyperedge
-            want_e, want_s, want_w = {}, {}, {}
-            for k in range(2, b + 1):
-                es = [e for e in BE if len(e[0]) + len(e[1]) == k]
-                if not es:
-                    want_e[k] = want_s[k] = want_w[k] = 0
-                    continue
-                want_e[k] = Fraction(sum(1 for s, t in es if (t, s) in S), len(es))
-                want_s[k] = Fraction(sum(1 for s, t in es if all(any((j, i) in reach for j in t) for i in s)), len(es))
-                want_w[k] = Fraction(sum(1 for s, t in es if any((j, i) in reach for i in s for j in t)), len(es))
-            res = {}
-            for name, fn, want in (("exact", exact_reciprocity, want_e), ("strong", strong_reciprocity, want_s), ("weak", weak_reciprocity, want_w)):
-                got = q(lambda: fn(h, b))
-                res[name] = got
-                try:
-                    ok = sorted(got.keys()) == list(range(2, b + 1)) and all(abs(float(got[k]) - float(want[k])) < 1e-12 and 0 <= got[k] <= 1 for k in want)
-                except Exception:
-                    ok = False
-                if not ok:
-                    bad("%s_reciprocity" % name, "bound %d: %r, definition %r" % (b, got, {k: str(v) for k, v in want.items()}))
             try:
-                if any(not (res["exact"][k] <= res["strong"][k] + 1e-12 and res["strong"][k] <= res["weak"][k] + 1e-12) for k in range(2, b + 1)):
-                    bad("reciprocity-order", "bound %d: exact %r strong %r weak %r" % (b, res["exact"], res["strong"], res["weak"]))
-            except Exception:
-                pass
-            if any(0 < want_s[k] for k in want_s):
-                acc.nontrivial.add(hash((repr(E), b)))
-            acc.outcomes.add(hash(repr((sorted(want_e.items()), sorted(want_s.items()), sorted(want_w.items())))))
+                if stage == "add":
+                    h.add_edge(((N0[0],), (xn,)))
+                    N, E = N0 + [xn], E0 + [((N0[0],), (xn,))]
+                elif stage == "remove":
+                    h.remove_node(xn)
+            except Exception as e:
+                bad("exception", "%s raised %s: %s" % (stage, type(e).__name__, e))
+                break
+            # degrees
+            for f in FILTERS:
+                acc.evaluations += 1
+                d = dict(f)
+                k = None if not d else (d["size"] if "size" in d else d["order"] + 1)
+                FE = [e for e in E if k is None or len(e[0]) + len(e[1]) == k]
+                win = {n: sum(1 for e in FE if n in e[0]) for n in N}
+                wout = {n: sum(1 for e in FE if n in e[1]) for n in N}
+                gi = q(lambda: in_degree_sequence(h, **d))
+                go = q(lambda: out_degree_sequence(h, **d))
+                if gi != win:
+                    bad("in_degree_sequence", "filter %r: %r, definition %r" % (d, gi, win))
+                if go != wout:
+                    bad("out_degree_sequence", "filter %r: %r, definition %r" % (d, go, wout))
+                for n in N:
+                    if q(lambda: in_degree(h, n, **d)) != win[n] or q(lambda: out_degree(h, n, **d)) != wout[n]:
+                        bad("in_out_degree", "filter %r node %r: in %r out %r, definition %r %r" % (d, n, q(lambda: in_degree(h, n, **d)), q(lambda: out_degree(h, n, **d)), win[n], wout[n]))
+                        break
+            maxsize = max((len(s) + len(t) for s, t in E), default=2)
+            for bound in [None] + list(range(2, 7)):
+                acc.evaluations += 1
+                b = bound if bound is not None else maxsize
+                BE = [e for e in E if len(e[0]) + len(e[1]) <= b]
+                # signature
+                if E or bound is not None:
+                    want = np.zeros((b - 1, b - 1))
+                    for s, t in BE:
+                        want[len(s) - 1, len(t) - 1] += 1
+                    got = q(lambda: hyperedge_signature_vector(h, max_hyperedge_size=bound) if bound is not None else hyperedge_signature_vector(h))
+                    try:
+                        ok = got.shape == ((b - 1) ** 2,) and (got == want.flatten()).all() and got.sum() == len(BE)
+                    except Exception:
+                        ok = False
+                    if not ok:
+                        bad("hyperedge_signature_vector", "bound %r: %r, definition %r" % (bound, got, want.flatten()))
+                if bound is None:
+                    continue
+                # reciprocities by definition over the size-bounded hyperedge set
+                S = set(BE)
+                reach = set()
+                for s, t in BE:
+                    for i in s:
+                        for j in t:
+                            reach.add((i, j))  # i -> j through some bounded hyperedge
+                want_e, want_s, want_w = {}, {}, {}
+                for k in range(2, b + 1):
+                    es = [e for e in BE if len(e[0]) + len(e[1]) == k]
+                    if not es:
+                        want_e[k] = want_s[k] = want_w[k] = 0
+                        continue
+                    want_e[k] = Fraction(sum(1 for s, t in es if (t, s) in S), len(es))
+                    want_s[k] = Fraction(sum(1 for s, t in es if all(any((j, i) in reach for j in t) for i in s)), len(es))
+                    want_w[k] = Fraction(sum(1 for s, t in es if any((j, i) in reach for i in s for j in t)), len(es))
+                res = {}
+                for name, fn, want in (("exact", exact_reciprocity, want_e), ("strong", strong_reciprocity, want_s), ("weak", weak_reciprocity, want_w)):
+                    got = q(lambda: fn(h, b))
+                    res[name] = got
+                    try:
+                        ok = sorted(got.keys()) == list(range(2, b + 1)) and all(abs(float(got[k]) - float(want[k])) < 1e-12 and 0 <= got[k] <= 1 for k in want)
+                    except Exception:
+                        ok = False
+                    if not ok:
+                        bad("%s_reciprocity" % name, "bound %d: %r, definition %r" % (b, got, {k: str(v) for k, v in want.items()}))
+                try:
+                    if any(not (res["exact"][k] <= res["strong"][k] + 1e-12 and res["strong"][k] <= res["weak"][k] + 1e-12) for k in range(2, b + 1)):
+                        bad("reciprocity-order", "bound %d: exact %r strong %r weak %r" % (b, res["exact"], res["strong"], res["weak"]))
+                except Exception:
+                    pass
+                if any(0 < want_s[k] for k in want_s):
+                    acc.nontrivial.add(hash((repr(E), b)))
+                acc.outcomes.add(hash(repr((sorted(want_e.items()), sorted(want_s.items()), sorted(want_w.items())))))
 
 
 def permuted(desc):
